@@ -41,6 +41,7 @@ end F
 inductive Slot where
   | hours12 | hours24 | minutes | seconds | fraction | amPm | sign
   | year | yearOfEra | yearOfEra2 | monthNum | monthText | dayOfMonth | dayOfWeek
+  | era
   deriving DecidableEq, Repr
 
 /-- one format-action / parse-action pair -/
@@ -94,10 +95,30 @@ structure Culture where
   offLongNP : Text
   offMediumNP : Text
   offShortNP : Text
+  /-- `date_time_format.full_date_time_pattern` (LocalDateTime standard pattern `F`) -/
+  fullDateTime : Text := []
+  /-- `get_era_names(era)` for the ISO calendar's eras BCE, CE (longest first) and `get_era_primary_name` -/
+  eraNamesBCE : List Text := []
+  eraNamesCE : List Text := []
+  eraPrimaryBCE : Text := []
+  eraPrimaryCE : Text := []
   deriving Repr
+
+/-- template value of a LocalDateTime pattern (ISO calendar): date fields and nanosecond of day -/
+structure Tmpl where
+  y : Int
+  m : Int
+  d : Int
+  nod : Int
+  deriving DecidableEq, Repr
+
+/-- `LocalDateTimePattern._DEFAULT_TEMPLATE_VALUE` = 2000-01-01T00:00 -/
+def Tmpl.default : Tmpl := ⟨2000, 1, 1, 0⟩
 
 inductive PType where
   | time | date | offset
+  /-- LocalDateTime pattern whose template value is `tm` (ISO calendar) -/
+  | datetime (tm : Tmpl)
   deriving DecidableEq, Repr
 
 /-- builder state: used fields and the steps so far (in order) -/
@@ -265,11 +286,38 @@ def handleOffset (cu : Culture) (c : Char) (rest : Text) (st : CSt) : R (CSt × 
     else if c = 'Z' then .error .invalidPattern             -- ZPREFIX_NOT_AT_START_OF_PATTERN
     else handleDefault c st
 
+/-- `_LocalDateTimePatternParser.__pattern_character_handlers`: the date and the time tables together, `H` admits
+    24, `T` is a literal; `l` (embedded `ld<…>` / `lt<…>` patterns) is outside the modelled subset (`!dom`) -/
+def handleDateTime (cu : Culture) (c : Char) (rest : Text) (st : CSt) : R (CSt × Nat) :=
+  match handleCommon c rest st with
+  | some r => r
+  | none =>
+    if c = '/' then .ok (addStep st (.lit cu.dateSep), 0)
+    else if c = 'T' then .ok (addStep st (.lit ['T']), 0)
+    else if c = 'y' then handleYearOfEra c rest st
+    else if c = 'u' then handlePadded c rest st 4 F.year (-9999) 9999 .year
+    else if c = 'M' then handleMonthOrDay true c rest st
+    else if c = 'd' then handleMonthOrDay false c rest st
+    else if c = '.' then handleDot false rest st
+    else if c = ';' then handleDot true rest st
+    else if c = ':' then .ok (addStep st (.lit cu.timeSep), 0)
+    else if c = 'h' then handlePadded c rest st 2 F.hours12 1 12 .hours12
+    else if c = 'H' then handlePadded c rest st 2 F.hours24 0 24 .hours24
+    else if c = 'm' then handlePadded c rest st 2 F.minutes 0 59 .minutes
+    else if c = 's' then handlePadded c rest st 2 F.seconds 0 59 .seconds
+    else if c = 'f' ∨ c = 'F' then handleFraction c rest st
+    else if c = 't' then handleCounted c rest st 2 F.amPm .amPm
+    else if c = 'c' then handleSingle st F.calendar .calendar
+    else if c = 'g' then handleCounted c rest st 2 F.era (fun _ => .era)
+    else if c = 'l' then .error .decimalDomain
+    else handleDefault c st
+
 def handleChar (ty : PType) (cu : Culture) (c : Char) (rest : Text) (st : CSt) : R (CSt × Nat) :=
   match ty with
   | .time => handleTime cu c rest st
   | .date => handleDate cu c rest st
   | .offset => handleOffset cu c rest st
+  | .datetime _ => handleDateTime cu c rest st
 
 /-- `_parse_custom_pattern`: `while cursor.move_next(): handler(cursor, builder)`.  A handler that consumed `k`
     further characters leaves the cursor on the last of them, so the loop continues after `rest.drop k`.
